@@ -30,7 +30,6 @@ from mitmproxy.addons import save
 from mitmproxy.io import FilteredFlowWriter
 from mitmproxy.test import taddons
 
-from vmc import par
 from vmc.refs import flowgen as G
 from vmc.tally import HarnessError, Tally
 
